@@ -21,7 +21,7 @@ SPEC = {
         dict(dir="config", pkgname="config_test", files=["config/c15_manager_test.go"], test="TestVerifC15Manager",
              n_quick=260, n_thorough=4000, shards_quick=2, shards_thorough=4),
     ],
-    "gen": ["ConfigSchemas"],
+    "gen": ["ConfigSchemas", "ConfigValidators", "ConfigCustoms"],
     "force": ["Model/C15_Check.v", "Proofs/C15_Tables.v", "Proofs/C15_Manager.v"],
     "diag": True,
     "rule": "per section: every member of the JSON struct (found by reflection) x every candidate value of its kind on the default document "
@@ -36,12 +36,16 @@ SPEC = {
               16: "a member named secret/private_key/basic_auth_credentials is shown in Manager.ToDisplayJSON without the hidden marker",
               17: "the Manager accepted a file although a section in it is refused by its registered component"},
     "tags": {1: "raft-namespace-dropped", 2: "mergo-drops-false-bool"},
-    "trusted": ["time.ParseDuration/Duration.String, multiaddr, peer ID, hex and key parsers: abstract (the harness tells the model accept/reject and the canonical form)",
+    "trusted": ["the Validate() translator's kind-directed reading of == nil / len == 0 and its oracle table (self-tested against native evaluation at every run)",
+                "time.ParseDuration/Duration.String, multiaddr, peer ID, hex and key parsers: abstract (the harness tells the model accept/reject and the canonical form)",
                 "encoding/json, envconfig, mergo (zero values skipped with WithOverride)"],
-    "level_text": "generic theorems (Props/C15.v, 34, all closed under the global context) over every table and every document; tables regenerated from the config.go files at every run; correspondence per package; "
+    "level_text": "generic theorems (Props/C15.v, 36, all closed under the global context) over every table and every document; tables regenerated from the config.go files at every run; correspondence per package; "
+                  "the Validate() method of every section (with the helpers it calls and hashicorp/raft ValidateConfig at the pinned version) is TRANSLATED at every run (Gen/ConfigValidators.v, one clause per rejection) "
+                  "and proved equal, for every oracle and configuration, to the model's validator (validators_source_is_model); crdt's trusted-peers rule likewise (Gen/ConfigCustoms.v, customs_source_is_model); "
                   "the per-section run-time monitors are tied to the theorems: a case annotated with the model's own outputs raises no code (every section, mode, document, environment), "
                   "each absent code 10-14 implies its Prop-level clause, and a case without code 1 is an observation of a configuration the model accepts",
-    "level_note": "validators transcribed by hand, pinned by source hash and checked at every bound by the harness",
+    "level_note": "validators and the crdt trusted-peers rule: translated from the source and proved equal to the model (a changed Validate() is reported by the clause that differs, and by a counterexample where the harness hits the bound); "
+                  "library outcomes (TLS pair loads, ID matches key) are named oracles; restapi ssl_cert_file/ssl_key_file (tlsOptions) remain a hand transcription pinned by source hash",
     "assumptions": [],
 }
 
